@@ -125,7 +125,9 @@ class C06(Property):
       return {"op": "single", "route": route, "num": num, "den": den}
 
     shape = W.weighted("shape", [(4, "single"), (2, "add"), (2, "mul"),
-                                 (2, "scale"), (1, "add3"), (1, "mulscale")])
+                                 (2, "scale"), (1, "add3"), (1, "mulscale"),
+                                 (1, "sub"), (1, "neg"), (1, "div"),
+                                 (2, "pow")])
     if shape == "single":
       tree = single()
     elif shape in ("add", "mul"):
@@ -135,6 +137,19 @@ class C06(Property):
         tree["b"]["den"] = [[k, ["c", c[1]] if c[0] == "c" else ["c", 2]]
                             for k, c in tree["a"]["den"]]
         tree["a"]["den"] = [list(x) for x in tree["b"]["den"]]
+    elif shape == "sub":
+      tree = {"op": "sub", "a": single(), "b": single()}
+    elif shape == "neg":
+      tree = {"op": "neg", "a": single()}
+    elif shape == "div":
+      b = single()
+      if b["num"][0][0] != 0:          # divisor needs a z**0 numerator term
+        b["num"].insert(0, [0, coeff()])
+      tree = {"op": "div", "a": single(), "b": b}
+    elif shape == "pow":
+      a = single()
+      a["num"], a["den"] = a["num"][:2], a["den"][:2]
+      tree = {"op": "pow", "a": a, "n": W.pick("exp", [2, 3, 3, 4])}
     elif shape == "scale":
       tree = {"op": "scale", "c": coeff(p_stream=(1, 2)), "a": single(),
               "side": W.pick("side", ["l", "r"])}
@@ -227,6 +242,15 @@ class C06(Property):
       {"tree": {"op": "add", "a": single([[0, S(1)]], [[0, C(2)], [1, C(1)]]),
                 "b": single([[1, S(2)]], [[0, C(2)], [1, C(1)]])},
        "lens": {"1": 6, "2": 6}, "xlen": 6, "cstream": 0},
+      {"tree": {"op": "pow", "n": 3,
+                "a": single([[0, S(1)], [1, C(2)]], [[0, C(1)], [1, S(2)]])},
+       "lens": {"1": None, "2": 9}, "xlen": 7, "cstream": 0},
+      {"tree": {"op": "div", "a": single([[0, C(1)], [1, S(1)]]),
+                "b": single([[0, C(2)], [1, S(2)]], [[0, C(1)], [2, C(3)]])},
+       "lens": {"1": 8, "2": None}, "xlen": None, "cstream": 0},
+      {"tree": {"op": "sub", "a": single([[0, S(1)]], [[0, C(1)], [1, C(2)]]),
+                "b": single([[1, C(3)]], [[0, S(2)]])},
+       "lens": {"1": None, "2": None}, "xlen": 6, "cstream": 0},
       {"tree": {"op": "scale", "c": S(1), "side": "l",
                 "a": single([[0, C(1)], [1, C(-1)]], [[0, S(2)], [1, C(2)]])},
        "lens": {"1": None, "2": None}, "xlen": 7, "cstream": 3},
@@ -283,6 +307,14 @@ class C06(Property):
         return rec(t["a"]) + rec(t["b"])
       if op == "mul":
         return rec(t["a"]) * rec(t["b"])
+      if op == "sub":
+        return rec(t["a"]) - rec(t["b"])
+      if op == "neg":
+        return -rec(t["a"])
+      if op == "div":
+        return rec(t["a"]) / rec(t["b"])
+      if op == "pow":
+        return rec(t["a"]) ** t["n"]
       f = rec(t["a"])
       c = cval(t["c"])
       return c * f if t["side"] == "l" else f * c
@@ -311,6 +343,23 @@ class C06(Property):
       n1, d1 = self.spec_polys(t["a"], n)
       n2, d2 = self.spec_polys(t["b"], n)
       return pmul(n1, n2), pmul(d1, d2)
+    if op == "sub":
+      n1, d1 = self.spec_polys(t["a"], n)
+      n2, d2 = self.spec_polys(t["b"], n)
+      return padd(pmul(n1, d2), pscale(-1, pmul(n2, d1))), pmul(d1, d2)
+    if op == "neg":
+      n1, d1 = self.spec_polys(t["a"], n)
+      return pscale(-1, n1), d1
+    if op == "div":
+      n1, d1 = self.spec_polys(t["a"], n)
+      n2, d2 = self.spec_polys(t["b"], n)
+      return pmul(n1, d2), pmul(d1, n2)
+    if op == "pow":
+      n1, d1 = self.spec_polys(t["a"], n)
+      nn, dd = {0: Fraction(1)}, {0: Fraction(1)}
+      for _ in range(t["n"]):
+        nn, dd = pmul(nn, n1), pmul(dd, d1)
+      return nn, dd
     n1, d1 = self.spec_polys(t["a"], n)
     return pscale(cv(t["c"]), n1), d1
 
@@ -530,7 +579,7 @@ class C06(Property):
                           "delivered %d items, output length %d"
                           % (r.name, r.delivered, out_len))
     # a stream feeding several product terms
-    if tree["op"] in ("mul", "add") and sids:
+    if tree["op"] in ("mul", "add", "sub", "div", "pow") and sids:
       res.counters["probe.stream-feeds-several-terms"] += 1
 
     # ---- (5) constant as constant stream (single and scaled filters only)
